@@ -649,7 +649,7 @@ def gen_cli(tier, r):
     # informational main options: exit status 0
     for a in [["--help"], ["-h"], ["--version"], ["-v"], ["--cpu-info"]]:
         add("other", a, "exp=other")
-    add("other", [], "exp=any")
+    add("other", [], "exp=help1")
     # value-taking spellings that swallow the next argument, odd but accepted forms: model vs implementation
     for a in [["-c", "100"], ["100", "-c", "2"], ["-p", "100"], ["100", "-p", "2", "-q"], ["1", "2", "3"], ["100", "-c", "-q"], ["100", "--count=0x2"],
               ["100", "--count=1+1"], ["100", "-t", "2*2"], ["100", "--number", "200", "-q"], ["--number=5", "--number=50", "-q"], ["100", "-q", "-q", "--quiet"],
